@@ -26,6 +26,12 @@
 //!       subset of steps;
 //!     mode "stop": the parent stops the running child with SIGSTOP for 70 ms every ~3 ms of
 //!       run time (works for every harness, also those that run in one call).
+//!   HISTORY INDEPENDENCE: the same triple is run again (`--history <seed>`) on a thread that
+//!   first ran, and between the target's steps keeps creating / stepping / dropping, a seeded
+//!   sequence of other simulations (other kinds, same kind other seed, same preset, same kind
+//!   with nearby parameter values, live background simulations interleaved step by step); the
+//!   target's output must not change.  Two design-level dependences on the thread-local
+//!   BUGGIFY context are classified as known findings (see `mask_stats`, `foreign_config`).
 use rand::{Rng as _, RngCore, SeedableRng};
 use rand_chacha::ChaCha8Rng;
 use redis_sim::redis::{Command, CommandExecutor, Value as RValue, SDS};
